@@ -29,6 +29,11 @@ DeclOps == {"parameter_decl", "variable_decl"}
 Defs(r) == (IF r.target_v THEN {r.target} ELSE {})
            \cup (IF r.op \in DeclOps \cup {"forin_stmt", "for_value_stmt"} /\ r.name_v THEN {r.name} ELSE {})
 
+Uses(r) == (IF r.operand_v THEN {r.operand} ELSE {}) \cup (IF r.operand2_v THEN {r.operand2} ELSE {})
+           \cup (IF r.condition_v THEN {r.condition} ELSE {}) \cup (IF r.receiver_v THEN {r.receiver} ELSE {})
+           \cup (IF r.op = "return_stmt" /\ r.name_v THEN {r.name} ELSE {})
+           \cup ToSet(r.arg_names)
+
 Edges == ToSet(Case(c).cfg)
 Nodes == {e[1] : e \in Edges} \cup {e[2] : e \in {x \in Edges : x[2] > 0}}
 Preds(n) == {e[1] : e \in {x \in Edges : x[2] = n}}
@@ -52,13 +57,15 @@ Judge ==
   /\ round >= 0 /\ Sweep(out) = out
   /\ round' = -1 /\ UNCHANGED <<c, out>>
   /\ LET extra == {n \in Nodes : HasLian(n) /\ ~(LianIn(n) \subseteq In(out, n))}
-         short == {n \in Nodes : HasLian(n) /\ Case(c).loopfree /\ ~(In(out, n) \subseteq LianIn(n))}
+         \* the property quantifies over uses: a classical definition that lian does not list counts where the statement uses the variable
+         UsedIn(n) == {d \in In(out, n) : d[1] \in Uses(RowOf(n))}
+         short == {n \in Nodes : HasLian(n) /\ Case(c).loopfree /\ ~(UsedIn(n) \subseteq LianIn(n))}
      IN IF extra # {}
         THEN LET n == CHOOSE x \in extra : TRUE IN
              bad' = "definition_retained_that_cannot_reach" /\ Report(bad', n, LianIn(n) \ In(out, n))
         ELSE IF short # {}
         THEN LET n == CHOOSE x \in short : TRUE IN
-             bad' = "loop_free_solution_smaller_than_classical" /\ Report(bad', n, In(out, n) \ LianIn(n))
+             bad' = "loop_free_solution_smaller_than_classical" /\ Report(bad', n, {d \in In(out, n) : d[1] \in Uses(RowOf(n))} \ LianIn(n))
         ELSE bad' = ""
 
 Next == bad = "" /\ (Iterate \/ Judge)
